@@ -350,6 +350,12 @@ class _Marshaller:
     # FIXME: will probably have to adjust similar to how we
     # adjusted dump_code2
     def dump_code3(self, x):
+        if hasattr(x, "co_exceptiontable") or hasattr(x, "co_qualname"):
+            # 3.11+ code objects have a different marshal layout (qualname,
+            # localsplusnames/kinds, exception table) that is not written here.
+            raise TypeError(
+                "marshalling Python 3.11+ code objects is not supported"
+            )
         self._write(TYPE_CODE)
         self.w_long(x.co_argcount)
         if hasattr(x, "co_posonlyargcount"):
